@@ -222,6 +222,31 @@ def eval_order(_):
     return Res(trans=len(calls) * 4, viols=viols, sample={'calls': len(calls), 'orders': 4})
 
 
+LONG_TEXTS = [('Jan 2 2003 ' + 'x Mon ' * 20000, {'fuzzy_with_tokens': True}), ('Jan 2 2003 ' + 'x Mon ' * 20000, {'fuzzy': True}),
+              ('2003-09-25 ' + 'at ' * 40000, {}), ('2003-09-25 10:36' + ' ' * 100000, {}), ('x ' * 30000 + '2003-09-25', {'fuzzy': True}),
+              ('1 ' * 20000, {}), ('1 ' * 20000, {'fuzzy_with_tokens': True}), ('Sep ' * 20000 + '2003', {'fuzzy': True}),
+              (', ' * 50000 + '2003-09-25', {})]
+
+
+def eval_long(i):
+    """promptness on long inputs: ten thousands of tokens are read in about half a second of CPU; a CPU-time cap more
+    than ten times that catches super-linear work"""
+    from mc.core import with_alarm, Capped
+    text, kw = LONG_TEXTS[i]
+    t0 = time.process_time()
+    try:
+        o = with_alarm(120.0, outcome, text, kw)           # wall-clock stop for runaways only
+    except Capped:
+        return Res(viols=[{'kind': 'too-slow', 'text': text[:40] + '...(%d chars)' % len(text), 'options': kw, 'wall_cap_s': 120}], trans=1)
+    cpu = time.process_time() - t0
+    if cpu > 8.0:                                           # CPU time, so that a busy machine does not count; clean tree: < 0.6 s each
+        return Res(viols=[{'kind': 'too-slow', 'text': text[:40] + '...(%d chars)' % len(text), 'options': kw, 'cpu_s': round(cpu, 1),
+                           'cpu_cap_s': 8}], trans=1)
+    if o[0] in ('OTHER', 'BADSHAPE', 'TypeError'):
+        return Res(viols=[{'kind': 'unexpected-exception', 'text': text[:40] + '...(%d chars)' % len(text), 'options': kw, 'outcome': o[:2]}], trans=1)
+    return Res(trans=1, extra={'long_input_cpu_ms': int(1000 * (time.process_time() - t0))})
+
+
 TZ_SWITCHES = [('IST-5:30', 'IST-2', 'IST', 7200), ('CST6', 'CST-8', 'CST', 28800), ('EST5EDT,M3.2.0,M11.1.0', 'EST-10EDT,M3.2.0,M11.1.0', 'EST', 36000),
                ('AAA3', 'AAA-3', 'AAA', 10800), ('GMT0', 'GMT0BST,M3.5.0/1,M10.5.0', 'GMT', 0)]
 
@@ -263,6 +288,8 @@ def replay(part, case):
         return eval_order(case).viols
     if part == 'input-types':
         return eval_types(case).viols
+    if part == 'long-inputs':
+        return eval_long(case).viols
     if part == 'process-zone-switch':
         return eval_tzswitch(tuple(case)).viols
     return eval_leak(case).viols
@@ -282,6 +309,7 @@ def run(ctx):
     ctx.explore('call-order', list(range(len(leak_set()))), 'eval_leak', chunk=4)
     ctx.explore('call-order-global', [0], 'eval_order', serial=True)
     ctx.explore('process-zone-switch', TZ_SWITCHES, 'eval_tzswitch', serial=True)
+    ctx.explore('long-inputs', list(range(len(LONG_TEXTS))), 'eval_long', chunk=1)
     ctx.coverage_extra.update({
         'bounds': {'token_alphabet': len(TOK), 'depth': depth, 'option_sets': len(OPTS), 'leak_set': len(leak_set()),
                    'cpu_cap_s': CPU_CAP},
